@@ -12,66 +12,20 @@ import pool
 import sfsproj
 import sfsrun
 
-OPTSETS = [
-    ("default", []), ("storage", ["-storage"]), ("partition", ["-partition"]),
-    ("norules", ["-no-simplification"]), ("size", ["-size"]), ("size-storage-norules", ["-size", "-storage", "-no-simplification"]),
-    ("partition-nopush0", ["-partition", "-push0"]), ("length-storage", ["-length", "-storage"]),
-]
+import sfscorpus
 
 
 def run(tier):
     t0 = time.time()
     seed = common.seed()
     groups, gstats = c01.build_corpus(tier, seed)
-    jobs = []
-    sets = OPTSETS[:4] if tier == "quick" else OPTSETS
-    for i, (name, argv) in enumerate(sets):
-        cmds = []
-        for g in ("H", "Xrule", "Xvoc", "Xchain", "S", "R"):
-            items = groups[g]
-            if tier == "quick" and g in ("Xrule", "Xvoc") and i > 0:
-                items = corpus.sample(items, 500, seed + i)
-            if tier == "thorough" and g in ("Xchain", "Xvoc") and i > 1:
-                items = corpus.sample(items, 3000, seed + i)
-            for c in items:
-                d = dict(c)
-                d["cmd"] = "sfs_greedy"
-                cmds.append(d)
-        jobs.append((name, ["-greedy"] + argv, cmds))
-    results = pool.run_matrix([(argv, cmds) for _, argv, cmds in jobs], timeout=20)
-    cases, index = [], {}
-    cnt = {"blocks": 0, "specs": 0, "greedy_ok": 0, "greedy_error": 0, "greedy_exc": 0, "killed": 0, "frontend_exc": 0,
-           "with_store": 0, "with_deps": 0}
-    for (name, argv, cmds), res in zip(jobs, results):
-        for cmd, r in zip(cmds, res):
-            if r.get("killed"):
-                cnt["killed"] += 1
-                continue
-            for b in r.get("blocks", []):
-                cnt["blocks"] += 1
-                if "exc" in b:
-                    cnt["frontend_exc"] += 1
-                    continue
-                for s in b["subs"]:
-                    cnt["specs"] += 1
-                    if "exc" in s:
-                        cnt["greedy_exc"] += 1
-                        continue
-                    if s["error"] != 0 or s["ids"] is None:
-                        cnt["greedy_error"] += 1
-                        continue
-                    cnt["greedy_ok"] += 1
-                    ps = sfsproj.proj_sfs(s["sfs"])
-                    key = common.stable_hash([ps, s["ids"]])
-                    if key in index:
-                        continue
-                    index[key] = True
-                    if any(i["sto"] for i in ps["ins"]):
-                        cnt["with_store"] += 1
-                    if ps["deps"]:
-                        cnt["with_deps"] += 1
-                    cases.append({"id": len(cases) + 1, "sfs": ps, "ids": sfsproj.proj_ids(s["ids"]), "maxlen": 0, "maxstack": 0,
-                                  "_raw": s["sfs"], "_ids": s["ids"], "_opt": name, "_block": b["plain"][:300]})
+    recs, cnt, setnames = sfscorpus.collect(tier, groups)
+    cases = []
+    for r in recs:
+        if r["ids"] is None:
+            continue
+        cases.append({"id": len(cases) + 1, "sfs": r["sfs"], "ids": sfsproj.proj_ids(r["ids"]), "maxlen": 0, "maxstack": 0,
+                      "_raw": r["raw"], "_ids": r["ids"], "_opt": r["opt"], "_block": r["block"]})
     verdicts, st = sfsrun.run_traces([{k: v for k, v in c.items() if not k.startswith("_")} for c in cases])
     viol = [(c, ("violates", verdicts[c["id"]][1], verdicts[c["id"]][0])) for c in cases if c["id"] in verdicts]
     out = findings.settle("C04", viol, lambda c: {"block": c["_block"], "options": c["_opt"], "ids": c["_ids"], "sfs": c["_raw"],
@@ -85,7 +39,7 @@ def run(tier):
            "evaluations": cnt["specs"], "distinct_nontrivial": nontrivial,
            "rule": "one evaluation = one sub-block specification handed to greedy_from_json; distinct = distinct (specification, id sequence); "
                    "non-trivial = sequence of at least 2 ids",
-           "driver": cnt, "corpus": gstats, "option_sets": [n for n, _, _ in jobs], "violating": len(viol),
+           "driver": cnt, "corpus": gstats, "option_sets": setnames, "violating": len(viol),
            "exhaustive": False}
     return {"level": "model_checking", "coverage": cov, "violations": out, "wall": time.time() - t0,
             "assumptions": ["only error=0 results are judged", "dependency pair <a,b>: a executed before b, and a never executed after b"]}
